@@ -64,6 +64,17 @@ Check (C06_listing_exact : forall (key : Type) (hash : key -> N) (keq : key -> k
        exists r', solo hash keq k (3 * nshards k) r l = Some (r', finish l RUnit)
          /\ (forall kd, abs r' kd = []) /\ Inv hash keq k r')).
 Print Assumptions C06_listing_exact.
+Check (C06_panicking_closure_as_returning_call : forall (key : Type) (hash : key -> N) (keq : key -> key -> bool) (k : N)
+         (r : @reg key) (l l' : @local key) kd key0 rest rest',
+    pcl l = pcl l' -> todo l = OGetOrCreateP kd key0 :: rest -> todo l' = OGetOrCreate kd key0 :: rest' ->
+    match step hash keq k r l, step hash keq k r l' with
+    | Some (r1, l1), Some (r2, l2) =>
+        r1 = r2 /\ pcl l1 = pcl l2 /\
+        ((results l1 = results l /\ results l2 = results l') \/
+         (exists s, results l1 = RPanicked s :: results l /\ results l2 = RSid s :: results l'))
+    | _, _ => False
+    end).
+Print Assumptions C06_panicking_closure_as_returning_call.
 Check (C06_spec_ok_on_model : forall c, consistent (okeys (case_keys c)) = true -> spec_ok c (run_case c) = true).
 Print Assumptions C06_spec_ok_on_model.
 Check (C06_spec_ok_sound : forall c o, spec_ok c o = true ->
